@@ -253,8 +253,22 @@ def install(world):
                 if not isinstance(z, STz):
                     raise Unsupported('astimezone(%r)' % (z,))
                 if o.aware is not True:
-                    raise Unsupported('astimezone on a possibly naive '
-                                      'datetime (local zone)')
+                    # a naive receiver is read as wall time of the PROCESS
+                    # local zone, whose offset is whatever the host has
+                    # configured: an uninterpreted function of the wall time
+                    world.trusted_used.add(
+                        'T-dt: astimezone() of a naive datetime uses the '
+                        'process local zone (offset uninterpreted)')
+                    loc = z3.Function('tz.local_offset', z3.IntSort(),
+                                      z3.IntSort())
+                    if isinstance(o.aware, bool):
+                        off = loc(o.local)
+                    elif it.branch(S.as_bool_term(o.aware)):
+                        off = o.off
+                    else:
+                        off = loc(o.local)
+                    return SDt(z3.simplify(o.local - off + z.off), z.off,
+                               True)
                 return SDt(z3.simplify(o.local - o.off + z.off), z.off, True)
             if name in ('weekday', 'strftime', 'isoformat', 'timetuple'):
                 f = z3.Function('dt.m_' + name, z3.IntSort(), S.Val)
@@ -288,6 +302,19 @@ def install(world):
             if op in ('<', '<=', '>', '>='):
                 return SBool({'<': a.us < b.us, '<=': a.us <= b.us,
                               '>': a.us > b.us, '>=': a.us >= b.us}[op])
+            if op == 'Div':
+                # timedelta / timedelta is a FLOAT true division (A2')
+                if not it.spec and it.branch(b.us == 0):
+                    it.raise_('ZeroDivisionError')
+                return SReal(S.fl(z3.ToReal(a.us) / z3.ToReal(b.us)))
+            if op == 'FloorDiv':
+                if not it.spec and it.branch(b.us == 0):
+                    it.raise_('ZeroDivisionError')
+                return SInt(S.floor_div(a.us, b.us))
+            if op == 'Mod':
+                if not it.spec and it.branch(b.us == 0):
+                    it.raise_('ZeroDivisionError')
+                return STd(S.py_mod(a.us, b.us))
         if isinstance(a, STd) and b is None and op == 'USub':
             return STd(-a.us)
         if isinstance(a, STd) and b is None and op == 'UAdd':
